@@ -112,8 +112,9 @@ def iter_episode(spec, uid="E", shared=None, events=None):
         if out == "error":
             # which of the aliased modules does the error message name (as a maximal dotted-identifier token)?
             import re
-            tokens = set(re.findall(r"[A-Za-z0-9_]+(?:\.[A-Za-z0-9_]+)*", err))
-            e["err_names"] = [list(a["mod"]) for a in aliases or [] if render(a["mod"]) in tokens]
+            # (name characters: word characters and the '+' '-' of the adv4 rendering)
+            named = lambda n: re.search(r"(?<![\w.+\-])" + re.escape(n) + r"(?![\w+\-]|\.[\w+\-])", err) is not None
+            e["err_names"] = [list(a["mod"]) for a in aliases or [] if named(render(a["mod"]))]
         if calls:
             graph, k = calls[0]
             e["drawn_nodes"] = sorted(conv(n) for n in graph.nodes)
